@@ -153,6 +153,9 @@ func runSwitch(t failer, c *ev.Collector, sc switchCase) {
 		t.Fatalf("%s", rp)
 	}
 	if rp != "" {
+		if strings.HasPrefix(rp, "hang") {
+			hangSeen = true
+		}
 		c.Fail(t, "live-reference-"+rp[:strings.IndexByte(rp, ':')], "one command per packet, each awaited: "+rp, sc)
 	}
 	if len(ref) != want {
@@ -163,6 +166,9 @@ func runSwitch(t failer, c *ev.Collector, sc switchCase) {
 		t.Fatalf("%s", gp)
 	}
 	if gp != "" {
+		if strings.HasPrefix(gp, "hang") {
+			hangSeen = true
+		}
 		c.Fail(t, "live-cut-"+gp[:strings.IndexByte(gp, ':')], fmt.Sprintf("cuts %v: %s", sc.Cuts, gp), sc)
 	}
 	if len(got) == len(ref) {
@@ -280,7 +286,9 @@ func TestC16_LiveSwitch(t *testing.T) {
 		return
 	}
 	ev.Rapid("live-switch", ev.Pick(120, 1500))
+	hangSeen = false
 	rapid.Check(t, func(rt *rapid.T) {
+		skipIfHangSeen(rt)
 		sc := drawSwitchCase(rt)
 		after, total := sc.boundaryAfterFirst()
 		if rapid.IntRange(0, 4).Draw(rt, "uncut") != 0 {
